@@ -124,6 +124,14 @@ ms_body = body_of(jm, "master_selection")
 pp_body = body_of(jm, "prepare_for_output_pass")
 window_once = ("first_iMCU_col = 0" in re.sub(r"\s+", " ", ms_body)) and not re.search(r"first_iMCU_col|first_MCU_col|last_MCU_col|last_iMCU_col", pp_body)
 
+# jpeg_skip_scanlines: the bottom clamp leaves the input controller alone in buffered-image mode;
+# jpeg_crop_scanline: output_scanline is only tested in DSTATE_SCANNING
+ja_nc = re.sub(r"/\*.*?\*/", "", ja, flags=re.S)
+clamp_guard = bool(re.search(r"cinfo->output_scanline\s*=\s*cinfo->output_height;\s*if\s*\(!cinfo->buffered_image\)\s*\{\s*\(\*cinfo->inputctl->finish_input_pass\)\s*\(cinfo\);\s*cinfo->inputctl->eoi_reached\s*=\s*TRUE;\s*\}", ja))
+crop_state_ok = bool(re.search(r"cinfo->global_state\s*==\s*DSTATE_SCANNING\s*&&\s*cinfo->output_scanline\s*!=\s*0", ja))
+if "eoi_reached = TRUE" not in ja:
+    die("jdapistd.c: jpeg_skip_scanlines no longer marks the end of input at the bottom clamp")
+
 def zl(xs):
     return "[" + "; ".join(str(x) for x in xs) + "]"
 print("(* GENERATED by tools/gen_Scaling.py from src/turbojpeg.c, turbojpeg.h, jpeglib.h, jdmaster.c, jdapistd.c -- do not edit *)")
@@ -142,6 +150,9 @@ print("(* turbojpeg-mp.c tj3Decompress*: bottom-up rows are anchored at croppedH
 print("Definition gen_tj_bottomup_anchor_cropped : bool := %s." % ("true" if anchor_ok else "false"))
 print("(* jdmaster.c: first/last_iMCU_col are initialised in master_selection() and no (i)MCU column window is touched in prepare_for_output_pass() *)")
 print("Definition gen_crop_window_set_once : bool := %s." % ("true" if window_once else "false"))
+print("(* jdapistd.c: skip-to-bottom touches the input controller only when !buffered_image; crop tests output_scanline only in DSTATE_SCANNING *)")
+print("Definition gen_skip_clamp_guards_buffered : bool := %s." % ("true" if clamp_guard else "false"))
+print("Definition gen_crop_state_test_scanning_only : bool := %s." % ("true" if crop_state_ok else "false"))
 print("(* jdmaster.c chain: (threshold k of `scale_num*DCTSIZE <= scale_denom*k` (0 = final else), width multiplier, height multiplier,")
 print("   _min_DCT_h_scaled_size, _min_DCT_v_scaled_size) in source order *)")
 print("Definition gen_scale_chain : list (Z * Z * Z * Z * Z) :=\n  [%s]." % "; ".join("(%d, %d, %d, %d, %d)" % b for b in branches))
